@@ -4,7 +4,7 @@ From Coq Require Import List ZArith QArith Qabs Bool Arith Permutation.
 Import ListNotations.
 Require Import DH.C05_Direction.Model DH.C05_Direction.LemmasBasic DH.C05_Direction.LemmasVec DH.C05_Direction.LemmasSign
   DH.C05_Direction.LemmasScalar DH.C05_Direction.LemmasInvar DH.C05_Direction.LemmasHist DH.C05_Direction.LemmasAffine
-  DH.C05_Direction.LemmasScaler DH.C05_Direction.LemmasFinal DH.C05_Direction.LemmasProperty DH.C05_Direction.LemmasTopk DH.C05_Direction.Check DH.C05_Direction.Names.
+  DH.C05_Direction.LemmasScaler DH.C05_Direction.LemmasFinal DH.C05_Direction.LemmasProperty DH.C05_Direction.LemmasTopk DH.C05_Direction.LemmasSweep DH.C05_Direction.Check DH.C05_Direction.Names.
 Require Import DH.Generated.Facts_C05.
 Open Scope Q_scope.
 
@@ -37,7 +37,9 @@ Theorem C05_name_maps :
   /\ (forall kappa mu sigma, acq_lcb kappa (- mu) sigma == - ucb kappa mu sigma)
   /\ (forall s, In s user_same_acq -> resolve map_acq_func s = s)
   /\ (forall s, In s user_same_strategy -> resolve map_multi_point_strategy s = s)
-  /\ (forall best xi mu, improve_min (- best) xi (- mu) == improve_max best xi mu).
+  /\ (forall best xi mu, improve_min (- best) xi (- mu) == improve_max best xi mu)
+  /\ (forall s, In s cbo_multi_point_strategy_allowed -> In s (map fst user_lies ++ user_qucb ++ user_same_strategy))
+  /\ (forall s, In s cbo_acq_func_allowed -> In s (user_ucb ++ user_same_acq)).
 Proof. exact name_maps. Qed.
 Print Assumptions C05_name_maps.
 
@@ -175,6 +177,37 @@ Theorem C05_topk_largest_objectives :
                                 obj (nth (fst q) cs d) <= obj (nth (fst p) cs d).
 Proof. exact topk_largest. Qed.
 Print Assumptions C05_topk_largest_objectives.
+
+(* Failed evaluations mixed with observations ("max" imputation = CBO's filter_failures="min"): the best score after
+   imputation is the best OBSERVED score - a failed candidate can only be selected when it ties with every observation. *)
+Theorem C05_failure_never_preferred :
+  forall ys, goods ys <> [] ->
+    let l := goods (impute PMax ys) in
+    let best := nth (argmin_idx l) l 0 in
+    (forall v, In v (goods ys) -> best <= v) /\ (exists v, In v (goods ys) /\ best == v).
+Proof. exact failure_never_preferred. Qed.
+Print Assumptions C05_failure_never_preferred.
+
+(* A history that arrives in several tells: with the utopia point of the WHOLE history every told row lies in the orthant
+   on which the scalarisers are monotone (the hypothesis of C05_scalar_monotone / C05_utopia_unique_minimum) ... *)
+Theorem C05_refit_orthant :
+  forall sc m Y1 Y2 r, In r (Y1 ++ Y2) -> nonneg (shrow sc m (Y1 ++ Y2) r).
+Proof. exact refit_orthant. Qed.
+Print Assumptions C05_refit_orthant.
+
+(* ... whereas a utopia point frozen at the first fit makes Chebyshev prefer the row that is worse in every objective. *)
+Theorem C05_frozen_utopia_refuted :
+  exists w Y1 Y2,
+    argmin_idx (scal_hist_frozen SCheb 0 w 2 Y1 Y2) = 0%nat /\ argmin_idx (scal_hist SCheb 0 w 2 (Y1 ++ Y2)) = 1%nat
+    /\ vlt (nth 1 (Y1 ++ Y2) []) (nth 0 (Y1 ++ Y2) []).
+Proof. exact frozen_utopia_refuted. Qed.
+Print Assumptions C05_frozen_utopia_refuted.
+
+(* Constant liar: a lie lies between the smallest and the largest value it is computed from; lies computed on a history
+   extended by earlier lies therefore never leave the observed range. *)
+Theorem C05_lie_in_range : forall k ys, ys <> [] -> qminl ys <= lie k ys <= qmaxl ys.
+Proof. exact lie_in_range. Qed.
+Print Assumptions C05_lie_in_range.
 
 (* TODAY's code (before fix F07) applies the scalarisers to the unshifted negated objectives: Chebyshev prefers the point
    that is worse in every objective.  Witness y = (-3,-3) (objectives 3,3), y' = (-1,-1): 3/2 vs 1/2. *)
